@@ -553,7 +553,14 @@ impl Node {
             }
         }
 
+        //a deleted node must not come back: ignore incoming versions covered by a local deletion log entry
+        let mut deleted_stmt = conn.prepare_cached(
+            "SELECT 1 FROM _node_deletion_log WHERE id = ? AND mdate >= ? LIMIT 1",
+        )?;
         for node_id in node_ids.drain() {
+            if deleted_stmt.exists((&node_id.id, &node_id.mdate))? {
+                continue;
+            }
             let node_to_insert = NodeToInsert {
                 id: node_id.id,
                 node: None,
